@@ -262,6 +262,38 @@ func checkC02(e *Engine, r *Report) {
 		})
 		r.Check("R11:taken-cpus-unshared", "idle sharing", "CPUs taken into a balloon are removed from the SharedIdleCpus of the balloons in the policy's list", e.Pos(share.Pos()), share, okRem, "", true)
 	}
+	// the walk that collects the idle CPUs of a balloon's sharing scope visits every node of that level
+	{
+		walk := e.Fn(pkgBL, "cpuTreeNode.DepthFirstWalk")
+		stop := e.Global(pkgBL, "WalkStop")
+		nWalk := 0
+		for _, c := range e.callsTo(share, walk) {
+			nWalk++
+			var cb *ssa.Function
+			Origins(callArgs(c)[1], func(v ssa.Value) bool {
+				if mc, ok := v.(*ssa.MakeClosure); ok {
+					cb, _ = mc.Fn.(*ssa.Function)
+					return true
+				}
+				return false
+			})
+			ok, why := cb != nil && stop != nil, "handler closure or WalkStop not found"
+			if ok {
+				why = ""
+				for _, ret := range Returns(cb) {
+					Origins(ret.Results[0], func(v ssa.Value) bool {
+						if u, isU := v.(*ssa.UnOp); isU && u.X == ssa.Value(stop) {
+							ok, why = false, "the handler returns WalkStop at "+e.InstrPos(ret)+": nodes of the sharing level after the first match are never visited"
+							return true
+						}
+						return false
+					})
+				}
+			}
+			r.Check("R6:share-scope-walk-complete", "idle sharing", "the topology walk collecting a balloon's shareable idle CPUs never stops early, so every node of the configured level that holds CPUs of the balloon contributes its idle CPUs", e.InstrPos(c), share, ok, why, true)
+		}
+		r.MinInstances("topology walks in shareIdleCpus", nWalk, 1)
+	}
 	// every growth followed by (un)sharing
 	for _, fn := range blFns {
 		top := TopParent(fn)
